@@ -74,7 +74,19 @@ def step (st : St) (ws : List String) : St × String :=
         | some ra, some rb =>
           match (if m == "merge" then merge ra rb else verifiedMerge ra rb) with
           | .ok r' => ({ st with regs := alSet a r' st.regs }, "ok")
-          | .error e => (st, s!"err {errName e}")
+          | .error e =>
+            -- which op's defect is reported first depends on the order of the other side's op set (a `BTreeSet` ordered
+            -- by the ops' bytes, which the model does not have): with several different per-op defects present the
+            -- refusal is compared as the class `op` (the harness checks that the reported one is among those present)
+            let perOp : Bool := match e with
+              | .tooManyEntries _ => false
+              | .differentBase => false
+              | _ => rb.ownerSigOk
+            let classes := (rb.ops.filterMap fun op =>
+              match verifyOp rb.base op with
+              | .error e' => some e'
+              | .ok _ => none).eraseDups
+            if perOp && classes.length ≥ 2 then (st, "err op") else (st, s!"err {errName e}")
         | _, _ => (st, "bad-op")
       else if m == "crdtnew" then
         ({ st with crdts := alSet a (b, {}) st.crdts }, "ok")
